@@ -257,3 +257,83 @@ class ScpInit:
     def ensures_scp_fields_are_the_arguments(self_post, cmd_rc, seq, arg1, arg2, arg3):
         return (self_post.cmd_rc == cmd_rc and self_post.seq == seq and self_post.arg1 == arg1
                 and self_post.arg2 == arg2 and self_post.arg3 == arg3)
+
+
+# ---- the encoding is a function of the CURRENT fields: build with the real constructor, encode,
+# ---- change every field, encode again ---------------------------------------------------------------
+def reencode_sdp(a, b):
+    p = SDPPacket(a.reply_expected, a.tag, a.dest_port, a.dest_cpu, a.src_port, a.src_cpu,
+                  a.dest_x, a.dest_y, a.src_x, a.src_y, a.data)
+    first = p.bytestring
+    p.reply_expected = b.reply_expected
+    p.tag = b.tag
+    p.dest_port = b.dest_port
+    p.dest_cpu = b.dest_cpu
+    p.src_port = b.src_port
+    p.src_cpu = b.src_cpu
+    p.dest_x = b.dest_x
+    p.dest_y = b.dest_y
+    p.src_x = b.src_x
+    p.src_y = b.src_y
+    p.data = b.data
+    return (first, p.bytestring)
+
+
+def reencode_scp(a, b):
+    p = SCPPacket(a.reply_expected, a.tag, a.dest_port, a.dest_cpu, a.src_port, a.src_cpu,
+                  a.dest_x, a.dest_y, a.src_x, a.src_y, a.cmd_rc, a.seq, a.arg1, a.arg2, a.arg3, a.data)
+    first = p.bytestring
+    p.reply_expected = b.reply_expected
+    p.tag = b.tag
+    p.dest_port = b.dest_port
+    p.dest_cpu = b.dest_cpu
+    p.src_port = b.src_port
+    p.src_cpu = b.src_cpu
+    p.dest_x = b.dest_x
+    p.dest_y = b.dest_y
+    p.src_x = b.src_x
+    p.src_y = b.src_y
+    p.cmd_rc = b.cmd_rc
+    p.seq = b.seq
+    p.data = b.data
+    return (first, p.bytestring)
+
+
+@contract("specs/c15_packets.py::reencode_sdp")
+class ReencodeSdp:
+    """a packet built by the real constructor, encoded, updated in every field and encoded again:
+    both encodings are the documented layout of the fields held at that moment"""
+    properties = ("C15",)
+    params = dict(a=SDP, b=SDP)
+    result = TTuple(BYTES, BYTES)
+
+    def native(a, b):
+        return reencode_sdp(a, b)
+
+    def ensures_first_encoding_is_of_the_constructor_arguments(a, b, result):
+        return header_ok(a, result[0]) and payload_is(result[0], 10, a.data)
+
+    def ensures_second_encoding_is_of_the_updated_fields(a, b, result):
+        return header_ok(b, result[1]) and payload_is(result[1], 10, b.data)
+
+
+@contract("specs/c15_packets.py::reencode_scp")
+class ReencodeScp:
+    properties = ("C15",)
+    params = dict(a=SCP, b=SCP)
+    result = TTuple(BYTES, BYTES)
+    options = {"no_merge": True}
+
+    def native(a, b):
+        return reencode_scp(a, b)
+
+    def requires(a, b):
+        return leading_args(a)
+
+    def ensures_first_encoding_is_of_the_constructor_arguments(a, b, result):
+        return (header_ok(a, result[0]) and le16(result[0], 10) == a.cmd_rc and le16(result[0], 12) == a.seq
+                and payload_is(result[0], 14 + 4 * n_present(a), a.data))
+
+    def ensures_second_encoding_is_of_the_updated_fields(a, b, result):
+        return (header_ok(b, result[1]) and le16(result[1], 10) == b.cmd_rc and le16(result[1], 12) == b.seq
+                and payload_is(result[1], 14 + 4 * n_present(a), b.data))
